@@ -92,6 +92,17 @@ def cases(tier, inst):
                 for dom in sub_doms:
                     for caching in ((True, False) if place == "alone" else (True,)):
                         yield ("subq", sk, t, place, dom, caching)
+    # TWO universal conditions next to each other whose universals are expressions of the SAME variable (u.q and u.q, u.q
+    # and u): the variable is quantified in each of them, what the other one ranges over does not make it a free variable
+    la, lv_ = leaves("attr"), [leaves("var")[i] for i in (0, 1, 4, 6)]
+    for conn in ("and", "or"):
+        for t1 in la:
+            for t2 in la[:4]:
+                for dom in sub_doms[:6]:
+                    yield ("sib", conn, "qq", t1, t2, dom, True)
+            for t2 in lv_:
+                for dom in sub_doms[:4]:
+                    yield ("sib", conn, "qv", t1, t2, dom, True)
     # the universal is built from the FREE (selected) variable: every element of x.t (un-nested), the value x.t[0]
     for uk in CORR_UNIVERSALS:
         for t in trees_by_depth(corr_leaves(uk), 1 if not thorough else 2):
@@ -161,6 +172,10 @@ def subq_parts(case):
 
 
 def query_of(case):
+    if case[0] == "sib":
+        _, conn, kind, t1, t2, dom, caching = case
+        second = A(U, "q") if kind == "qq" else U
+        return ("Q", "an", "setof", (X,), ((conn, ("fa", A(U, "q"), t1), ("fa", second, t2)),), (VX,))
     if case[0] == "corr":
         _, uk, t, place, wk, caching = case
         fa = ("fa", CORR_UNIVERSALS[uk], t)
@@ -190,6 +205,8 @@ def query_of(case):
 
 
 def wspec_of(case):
+    if case[0] == "sib":
+        return (("F", "Item", FREE), ("U", "Item", case[5]))
     if case[0] == "corr":
         return (("F", "Item", CORR_WORLDS[case[4]]),)
     if case[0] == "subq":
@@ -284,7 +301,44 @@ def run_corr(case, inst):
     return res
 
 
+def run_sib(case, inst):
+    _, conn, kind, t1, t2, dom, caching = case
+    q = query_of(case)
+
+    def body():
+        world = build_world(wspec_of(case), inst)
+        ref = Q.Ref(world, inst, universals=(VU,))
+        exp = [(env["x"],) for env in ref.solutions(q)]
+        try:
+            from entity_query_language import symbolic_mode
+            b = Q.Builder(world, inst)
+            with symbolic_mode():
+                b.declare((VU,))
+                obj = b.query(q)
+            sel = b.sel[q]
+            got1 = [tuple(r[s_] for s_ in sel) for r in obj.evaluate()]
+        except Exception as e:
+            return exc_obs(e), None, exp
+        try:
+            got2 = [tuple(r[s_] for s_ in sel) for r in obj.evaluate()]
+        except Exception as e:
+            got2 = exc_obs(e)
+        return got1, got2, exp
+
+    got1, got2, exp = run_isolated(body, caching=caching)
+    res = {"ok": True, "nontrivial": 0 < len(exp) < len(FREE), "transitions": 2,
+           "tags": [f"uform=sib-{kind}", f"root={conn}", "place=alone", "caching=on", f"urows={len(dom)}"], "outcome": str(len(exp))}
+    for name, got in (("eval1", got1), ("eval2", got2)):
+        d = diff_rows(got, exp, count=True)
+        if d is not None:
+            res.update(ok=False, sig=f"{name}:{d}/root={conn}/sib-{kind}", obs=(name, row_labels(got)), exp=row_labels(exp))
+            break
+    return res
+
+
 def run_case(case, inst):
+    if case[0] == "sib":
+        return run_sib(case, inst)
     if case[0] == "corr":
         return run_corr(case, inst)
     if case[0] == "subq":
@@ -337,6 +391,11 @@ def run_case(case, inst):
 
 
 def describe(case, inst):
+    if case[0] == "sib":
+        return ("enable_caching()\n" + Q.up_world(wspec_of(case), inst) + "\nwith symbolic_mode(): u = let(Item, U)\n"
+                + Q.up_query(query_of(case), inst)
+                + "\nrows1 = list(q.evaluate()); rows2 = list(q.evaluate())"
+                  "\n# expected: each for_all quantifies over ALL values of its universal expression, whatever the other one ranges over")
     if case[0] == "corr":
         return (("enable_caching()" if case[-1] else "disable_caching()") + "\n" + Q.up_world(wspec_of(case), inst) + "\n"
                 + Q.up_query(query_of(case), inst)
